@@ -138,6 +138,8 @@ class Collector:
             self.nontrivial.add(hk)
             if len(self.samples) < 400:
                 self.samples[hk] = case['input']
+        if hasattr(prop, 'measure'):
+            self.notes.update(prop.measure(case))
         res = evaluate(prop, case)
         if res is not None:
             self.record_failure(res[0], res[1], case, source)
